@@ -354,6 +354,15 @@ class CircuitFinderSat:
         if first_predecessor is None and second_predecessor is None:
             raise FixGateError()
 
+        # evaluate the gate type first: if it is not a two-input type this raises,
+        # and a rejected call must not leave the predecessor clauses behind.
+        gate_type_bits = None
+        if gate_type:
+            gate_type_bits = {
+                (a, b): gate_type.operator(bool(a), bool(b))
+                for a, b in itertools.product(range(2), repeat=2)
+            }
+
         if first_predecessor is not None and second_predecessor is not None:
             if not (gate > second_predecessor > first_predecessor):
                 raise FixGateOrderError()
@@ -377,9 +386,8 @@ class CircuitFinderSat:
                 if a != second_predecessor and b != second_predecessor:
                     self._cnf.append([-self._predecessors_variable(gate, a, b)])
 
-        if gate_type:
-            for a, b in itertools.product(range(2), repeat=2):
-                bit = gate_type.operator(bool(a), bool(b))
+        if gate_type_bits is not None:
+            for (a, b), bit in gate_type_bits.items():
                 assert bit in [True, False]
                 self._cnf.append(
                     [
